@@ -31,6 +31,7 @@ from pycel.excelutil import (
     in_array_formula_context,
     NAME_ERROR,
     PyCelException,
+    REFERENCE_OPERATORS,
     split_sheetname,
     uniqueify,
 )
@@ -39,6 +40,9 @@ from pycel.lib.function_info import func_status_msg
 
 
 ADDR_FUNCS_NAMES = '_R_', '_C_', '_REF_'
+
+# functions whose first argument is emitted as a reference
+REFERENCE_FUNCS = 'str', 'row', 'column', 'offset'
 
 
 def python_str(address):
@@ -967,7 +971,7 @@ class ExcelFormula:
 
             # function to fixup the operands
             name_space['excel_operator_operand_fixup'] = \
-                build_operator_operand_fixup(capture_error_state)
+                build_operator_operand_fixup(capture_error_state, name_space)
 
             # hook for the execed code to save the resulting lambda
             name_space['lambdas'] = lambdas = []
@@ -1056,6 +1060,16 @@ class ExcelFormula:
                 return self.replace_op(
                     node, node.left, node.ops[0], node.comparators[0])
 
+            def visit_Call(self, node):
+                """ find the operators which make a reference """
+                if node.args and getattr(node.func, 'id', None) in REFERENCE_FUNCS:
+                    # the operator in str(_REF_("A1") ** index(...)) is A1:INDEX()
+                    reference = node.args[0]
+                    if isinstance(reference, ast.BinOp) and \
+                            type(reference.op).__name__ in REFERENCE_OPERATORS:
+                        reference.is_reference_operator = True
+                return ast.NodeTransformer.generic_visit(self, node)
+
             def visit_BinOp(self, node):
                 """ change the BinOP node to a function node """
                 node = ast.NodeTransformer.generic_visit(self, node)
@@ -1072,7 +1086,10 @@ class ExcelFormula:
             def replace_op(self, node, left, node_op, right):
                 """ change the compare node to a function node """
 
-                op = ast.Constant(value=type(node_op).__name__)
+                op = type(node_op).__name__
+                if getattr(node, 'is_reference_operator', False):
+                    op = REFERENCE_OPERATORS[op]
+                op = ast.Constant(value=op)
                 return ast.Call(
                     func=ast.Name(id='excel_operator_operand_fixup',
                                   ctx=ast.Load()),
